@@ -138,30 +138,9 @@ func (t *Transfer) fail(key, f string, a ...any) *Problem {
 
 // Run performs the writes and reads. It does not close anything.
 func (t *Transfer) Run() *Problem {
-	if t.MaxZeroReads == 0 {
-		t.MaxZeroReads = 64
-	}
-	for wi, w := range t.Writes {
-		src := t.Payload[t.Accepted : t.Accepted+w]
-		if cap(t.wscratch) < w {
-			t.wscratch = make([]byte, w)
-		}
-		in := t.wscratch[:w]
-		copy(in, src)
-		n, err := t.W.Write(in)
-		if !bytes.Equal(in, src) {
-			t.InputModified = true
-		}
-		if n < 0 || n > w {
-			return t.fail("write-count-out-of-range", "Write #%d of %d bytes returned n=%d", wi, w, n)
-		}
-		t.Accepted += n
-		if err != nil {
-			// the connection underneath is healthy: a failing Write means these bytes cannot be delivered
-			return t.fail("write-failed-on-healthy-conn", "Write #%d of %d bytes at offset %d returned n=%d err=%v", wi, w, t.Accepted-n, n, err)
-		}
-		if n != w {
-			return t.fail("short-write-without-error", "Write #%d of %d bytes returned n=%d, err=nil", wi, w, n)
+	for wi := range t.Writes {
+		if p := t.writeOne(wi); p != nil {
+			return p
 		}
 		if t.DrainEach {
 			if p := t.drain(); p != nil {
@@ -172,8 +151,47 @@ func (t *Transfer) Run() *Problem {
 	return t.drain()
 }
 
+// WriteAll performs only the writes (the wire-editing harnesses capture them, edit, then read).
+func (t *Transfer) WriteAll() *Problem {
+	for wi := range t.Writes {
+		if p := t.writeOne(wi); p != nil {
+			return p
+		}
+	}
+	return nil
+}
+
+func (t *Transfer) writeOne(wi int) *Problem {
+	w := t.Writes[wi]
+	src := t.Payload[t.Accepted : t.Accepted+w]
+	if cap(t.wscratch) < w {
+		t.wscratch = make([]byte, w)
+	}
+	in := t.wscratch[:w]
+	copy(in, src)
+	n, err := t.W.Write(in)
+	if !bytes.Equal(in, src) {
+		t.InputModified = true
+	}
+	if n < 0 || n > w {
+		return t.fail("write-count-out-of-range", "Write #%d of %d bytes returned n=%d", wi, w, n)
+	}
+	t.Accepted += n
+	if err != nil {
+		// the connection underneath is healthy: a failing Write means these bytes cannot be delivered
+		return t.fail("write-failed-on-healthy-conn", "Write #%d of %d bytes at offset %d returned n=%d err=%v", wi, w, t.Accepted-n, n, err)
+	}
+	if n != w {
+		return t.fail("short-write-without-error", "Write #%d of %d bytes returned n=%d, err=nil", wi, w, n)
+	}
+	return nil
+}
+
 // drain reads until everything accepted so far has been received.
 func (t *Transfer) drain() *Problem {
+	if t.MaxZeroReads == 0 {
+		t.MaxZeroReads = 64
+	}
 	if t.Arm != nil {
 		t.Arm()
 	}
